@@ -7,11 +7,11 @@
 (* what LAYER 1 of Signals.tla (the denotation) says:                      *)
 (*   next          frame = Den(n+1), pulls per source = Pulls, inspect log *)
 (*                 = InspDen (C04); exhaustion flags before / after, and   *)
-(*                 the frame once the term has ended (C05)                 *)
+(*                 the frame of a bare source once it has ended (C05)      *)
 (*   is_exhausted  ret = (n >= DLen) (C05); no pull (C04)                  *)
 (*   collect       the whole yielded list: length, two further None, size  *)
-(*                 hint of take, interleaved samples (C05); the frames and *)
-(*                 the pulls (C04)                                         *)
+(*                 hint of take, channel order of interleaved samples      *)
+(*                 (C05); the frames and the pulls (C04)                   *)
 (*   drop / resume a borrowed source continues at Pulls + 1 (C04), with    *)
 (*                 exact exhaustion flags and silence after its end (C05)  *)
 (* State per execution = (term and sources = the reset line, n outputs so  *)
@@ -22,6 +22,9 @@
 (*   <<"REJECT", l, tag>>  tag = "C04" | "C05" | "C04+C05"; the rest of    *)
 (*                         that execution is skipped                       *)
 (*   <<"HEAP", l, ev>>     accepted, but the call touched the heap (C07)   *)
+(*   <<"DESYNC", l>>       only a conjunct of the property NOT selected    *)
+(*                         failed and the position of the real signal is   *)
+(*                         no longer known: rest of the execution skipped  *)
 (*   <<"UNDEF", l>>        the stimulus left the domain on which C03       *)
 (*                         defines the frame arithmetic (integer overflow, *)
 (*                         float -> int outside [-1,1)): not judged        *)
@@ -55,7 +58,7 @@ RECURSIVE InspCount(_, _)
 InspCount(base, m) == IF m = 0 THEN 0 ELSE Cardinality(InspDen(X, T, F, "r", base + m)) + InspCount(base, m - 1)
 
 ---------------------------------------------------------------------------
-(* one judgement per event kind: [ok04, ok05, undef, n, rs, gone] *)
+(* one judgement per event kind: [ok04, ok05, undef, sync, n, rs, gone] *)
 
 JNext ==
   LET m == n + 1
@@ -68,17 +71,17 @@ JNext ==
                 /\ Len(Ev.o.insp) = Cardinality(insp),                   \* ... exactly once
       ok05  |-> /\ Ev.o.exh_before = ExhDen(X, T, n)
                 /\ Ev.o.exh_after = ExhDen(X, T, m)
-                /\ (m > DLen(X, T) => frameOK),                          \* what an ended signal yields
+                /\ (T.k \in LeafSrc /\ m > DLen(X, T) => frameOK),      \* an ended source yields equilibrium
       undef |-> ~frameOK /\ ~DenDefined(X, T, F, m),
-      n |-> m, rs |-> rs, gone |-> FALSE]
+      sync |-> TRUE, n |-> m, rs |-> rs, gone |-> FALSE]
 
 JIsExh ==
   [ok04 |-> Ev.o.pulls = ExpPulls(n, rs),
    ok05 |-> Ev.o.ok /\ Ev.r = [k |-> "val", v |-> ExhDen(X, T, n)],
-   undef |-> FALSE, n |-> n, rs |-> rs, gone |-> FALSE]
+   undef |-> FALSE, sync |-> TRUE, n |-> n, rs |-> rs, gone |-> FALSE]
 
 JDrop ==
-  [ok04 |-> Ev.o.pulls = ExpPulls(n, rs), ok05 |-> TRUE, undef |-> FALSE, n |-> n, rs |-> rs, gone |-> TRUE]
+  [ok04 |-> Ev.o.pulls = ExpPulls(n, rs), ok05 |-> TRUE, undef |-> FALSE, sync |-> TRUE, n |-> n, rs |-> rs, gone |-> TRUE]
 
 JCollect ==
   LET a == Ev.a
@@ -95,17 +98,25 @@ JCollect ==
       common == IF isItems THEN MinI(Len(got), Len(exp)) ELSE 0
       prefixOK == IF lenOK THEN got = exp ELSE \A i \in 1..common : got[i] = exp[i]
       inspCalls == InspCount(n, cnt)
+      \* interleaved samples, frame by frame: a chunk that is a permutation of the expected frame is a
+      \* channel-order error (C05), any other difference is a wrong frame (C04)
+      frames == DenRange(X, T, F, n, cnt)
+      chunk(i) == [k \in 1..X.ch |-> got[(i - 1) * X.ch + k]]
+      sameBag(x, y) == \A i \in 1..Len(x) : Cardinality({k \in 1..Len(x) : x[k] = x[i]}) = Cardinality({k \in 1..Len(y) : y[k] = x[i]})
+      ilValueOK == (c = "il" /\ lenOK /\ got # exp) => \A i \in 1..cnt : chunk(i) # frames[i] => sameBag(chunk(i), frames[i])
+      ilOrderOK == (c = "il" /\ lenOK /\ got # exp) => \A i \in 1..cnt : chunk(i) # frames[i] => ~sameBag(chunk(i), frames[i])
   IN IF ~wellformed \/ (finite /\ a.cap < Len(exp))
-       THEN [ok04 |-> TRUE, ok05 |-> TRUE, undef |-> TRUE, n |-> n, rs |-> rs, gone |-> TRUE]
+       THEN [ok04 |-> TRUE, ok05 |-> TRUE, undef |-> TRUE, sync |-> TRUE, n |-> n, rs |-> rs, gone |-> TRUE]
      ELSE
        [ok04  |-> /\ isItems
-                  /\ (c # "il" => prefixOK)                              \* the frames themselves
+                  /\ (c # "il" => prefixOK) /\ ilValueOK                 \* the frames themselves
                   /\ (lenOK => Ev.o.pulls = ExpPulls(n + cnt, rs) /\ Ev.o.insp_calls = inspCalls),
         ok05  |-> /\ lenOK                                               \* exactly Len / n / frames x channels items
                   /\ Ev.o.after = << FALSE, FALSE >> /\ ~Ev.o.capped     \* then None for good
                   /\ (c = "take" => Ev.o.hint = << a.n, a.n, a.n >>)     \* ExactSizeIterator
-                  /\ (c = "il" => prefixOK),                             \* channel order
+                  /\ ilOrderOK,                                         \* channel order
         undef |-> ~(isItems /\ prefixOK) /\ \E i \in 1..cnt : ~DenDefined(X, T, F, n + i),
+        sync  |-> lenOK,                     \* otherwise the position of the real signal is unknown
         n |-> n + cnt, rs |-> rs, gone |-> ~a.byref]
 
 JResume ==
@@ -118,7 +129,7 @@ JResume ==
       ok05 |-> /\ Ev.o.exh_before = (k - 1 >= SrcLen(X, j))
                /\ Ev.o.exh_after = (k >= SrcLen(X, j))
                /\ (k > SrcLen(X, j) => frameOK),
-      undef |-> FALSE, n |-> n, rs |-> rs1, gone |-> TRUE]
+      undef |-> FALSE, sync |-> TRUE, n |-> n, rs |-> rs1, gone |-> TRUE]
 
 Known == \/ (~gone /\ Ev.ev \in {"next", "is_exhausted", "drop", "collect"})
          \/ (gone /\ Ev.ev = "resume")
@@ -156,6 +167,8 @@ TOp ==
                  THEN PrintT(<< "UNDEF", l >>) /\ skip' = TRUE /\ UNCHANGED << r0, n, rs, gone >>
                ELSE IF b04 \/ b05
                  THEN PrintT(<< "REJECT", l, Tag(b04, b05) >>) /\ skip' = TRUE /\ UNCHANGED << r0, n, rs, gone >>
+               ELSE IF ~j.sync      \* failed only a conjunct of the property not selected, and lost the position
+                 THEN PrintT(<< "DESYNC", l >>) /\ skip' = TRUE /\ UNCHANGED << r0, n, rs, gone >>
                ELSE /\ n' = j.n /\ rs' = j.rs /\ gone' = j.gone /\ UNCHANGED << r0, skip >>
                     /\ (IF HeapOK THEN TRUE ELSE PrintT(<< "HEAP", l, Ev.ev >>))
 TSkip == Consume /\ Ev.ev # "reset" /\ skip /\ UNCHANGED << r0, n, rs, gone, skip >>
